@@ -15,6 +15,8 @@ owner_stable("Interrupt", ["due"], when="scheduled",
 owner_stable("Interrupt", ["target"], when="scheduled|sub",
              why="K2/K7: target is written by schedule/__subscribe__ only, always with the subscribed waiter")
 monotone("Interrupt", ["scheduled"], why="scan W1: `scheduled` is only ever assigned True")
+owner_stable("Interrupt", ["scheduled"], when="self.sub is None and not self.scheduled",
+             why="an interrupt that is neither subscribed nor scheduled is known to its creator only")
 
 invariant("Notification", "waiting_wf",
           "forall(self._waiting, lambda w: w[0] is not None and w[1] is not None and w[1].sub is self "
